@@ -2,6 +2,8 @@ package main
 
 import (
 	"fmt"
+	"go/ast"
+	"go/token"
 	"go/types"
 	"os"
 	"path/filepath"
@@ -25,6 +27,7 @@ type Program struct {
 	// all named (non-interface) types of library packages, for interface dispatch
 	concrete  []types.Type
 	globNonNil map[*ssa.Global]int // 0 unknown, 1 non-nil constant after init, 2 no
+	globInit   map[*ssa.Global]*globInitInfo
 	contracts map[string]*Contract // by function key
 	specs     *SpecEnv
 	loadSecs  float64
@@ -244,4 +247,80 @@ func (P *Program) globalNonNil(gl *ssa.Global) bool {
 		P.globNonNil[gl] = 2
 	}
 	return res
+}
+
+// globalInit returns the initialiser expression of a package-level variable that is assigned nowhere else
+// (checked syntactically over the whole program), together with the types.Info of its package.
+func (P *Program) globalInit(gl *ssa.Global) (ast.Expr, *types.Info) {
+	if P.globInit == nil {
+		P.globInit = map[*ssa.Global]*globInitInfo{}
+	}
+	if gi, ok := P.globInit[gl]; ok {
+		return gi.expr, gi.info
+	}
+	gi := &globInitInfo{}
+	P.globInit[gl] = gi
+	// any store outside init, or any escaping use of the address => not constant
+	for fn := range ssautil.AllFunctions(P.prog) {
+		for _, b := range fn.Blocks {
+			for _, in := range b.Instrs {
+				for _, op := range in.Operands(nil) {
+					if *op != ssa.Value(gl) {
+						continue
+					}
+					switch x := in.(type) {
+					case *ssa.UnOp, *ssa.IndexAddr:
+						// load / element address: element stores are checked below
+						if ia, ok := in.(*ssa.IndexAddr); ok {
+							if refs := ia.Referrers(); refs != nil {
+								for _, r := range *refs {
+									if st, isStore := r.(*ssa.Store); isStore && st.Addr == ssa.Value(ia) && fn.Name() != "init" {
+										return nil, nil
+									}
+								}
+							}
+						}
+					case *ssa.Store:
+						if x.Addr == ssa.Value(gl) && fn.Name() == "init" && fn.Pkg == gl.Pkg {
+							continue
+						}
+						return nil, nil
+					case *ssa.Slice:
+						// slicing a global array/string value: read-only in this code base
+					default:
+						_ = x
+						return nil, nil
+					}
+				}
+			}
+		}
+	}
+	for _, pkg := range P.pkgs {
+		if pkg.Types != gl.Pkg.Pkg {
+			continue
+		}
+		for _, f := range pkg.Syntax {
+			for _, d := range f.Decls {
+				gd, ok := d.(*ast.GenDecl)
+				if !ok || gd.Tok != token.VAR {
+					continue
+				}
+				for _, sp := range gd.Specs {
+					vs := sp.(*ast.ValueSpec)
+					for i, n := range vs.Names {
+						if n.Name == gl.Name() && i < len(vs.Values) {
+							gi.expr, gi.info = vs.Values[i], pkg.TypesInfo
+							return gi.expr, gi.info
+						}
+					}
+				}
+			}
+		}
+	}
+	return nil, nil
+}
+
+type globInitInfo struct {
+	expr ast.Expr
+	info *types.Info
 }
